@@ -662,7 +662,18 @@ func (o *orbitDB) DetermineAddress(ctx context.Context, name string, storeType s
 	}
 
 	// Create the database address
-	return address.Parse(path.Join("/orbitdb", manifestHash.String(), name))
+	dbAddress, err := address.Parse(path.Join("/orbitdb", manifestHash.String(), name))
+	if err != nil {
+		return nil, err
+	}
+
+	// joining cleans the path: a name with enough parent-directory segments would replace the manifest
+	// hash, and the address would point at whatever the name puts in its place
+	if !dbAddress.GetRoot().Equals(manifestHash) {
+		return nil, fmt.Errorf("invalid database name: %s", name)
+	}
+
+	return dbAddress, nil
 }
 
 func (o *orbitDB) loadCache(directory string, dbAddress address.Address) (datastore.Datastore, error) {
